@@ -85,7 +85,7 @@ theorem cmd_chg (na : Bool) (g : Chg) (st : St SimSt) (q : List Behav) (hr : Rea
     (g.valid = true → o.1 = .ok () ∧ Ready o.2 ∧ o.2.dev.queue = q) ∧
     (g.valid = false → ∃ ci R out, o.1 = .abort (.unexpectedOutput ci R) ∧ g.bad = some (ci, out) ∧
         neLines R = neLines out) ∧
-    (o.2.dev.parts = [] ∧ o.2.reloadActive = true) := by
+    (o.2.dev.parts = [] ∧ o.2.reloadActive = true ∧ o.2.dev.occ = st.dev.occ) := by
   cases g with
   | one c b =>
     have h := cmd_one na st c b q hr hq hc.cmds (hc.behavs b (by simp [Chg.behavs]))
@@ -121,11 +121,11 @@ theorem loop_spec (na : Bool) (gs : List Chg) (st : St SimSt) (q : List Behav) (
     (specOk gs = true → o.1 = .ok () ∧ Ready o.2 ∧ o.2.dev.queue = q) ∧
     (specOk gs = false → ∃ ci R out, o.1 = .abort (.unexpectedOutput ci R) ∧
         firstBad gs = some (ci, out) ∧ neLines R = neLines out) ∧
-    (o.2.dev.parts = [] ∧ o.2.reloadActive = true) := by
+    (o.2.dev.parts = [] ∧ o.2.reloadActive = true ∧ o.2.dev.occ = st.dev.occ) := by
   induction gs generalizing st with
   | nil =>
     refine ⟨by simp [changeLoop, forEach, pureM, specTrace], by simp [changeLoop, forEach, pureM, specWarns],
-      fun _ => ⟨rfl, hr, by simpa [changeLoop, forEach, pureM] using hq⟩, ?_, ⟨hr.parts, hr.active⟩⟩
+      fun _ => ⟨rfl, hr, by simpa [changeLoop, forEach, pureM] using hq⟩, ?_, ⟨hr.parts, hr.active, rfl⟩⟩
     intro h; cases h
   | cons g gs ih =>
     intro o
@@ -141,7 +141,7 @@ theorem loop_spec (na : Bool) (gs : List Chg) (st : St SimSt) (q : List Behav) (
       rw [bindM_snd_of_ok _ _ _ () hok] at ho
       have h2 := ih (cmd (simDevice [] na) true g.cmd st).2 hr1 hq2 (fun x hx => hc x (by simp [hx]))
       rw [ho]
-      refine ⟨?_, ?_, ?_, ?_, h2.2.2.2.2⟩
+      refine ⟨?_, ?_, ?_, ?_, ⟨h2.2.2.2.2.1, h2.2.2.2.2.2.1, by rw [h2.2.2.2.2.2.2, h1.2.2.2.2.2.2]⟩⟩
       · rw [h2.1, h1.1]; simp [specTrace, hv]
       · rw [h2.2.1, h1.2.1]; simp [specWarns, hv]
       · intro hs
